@@ -229,79 +229,8 @@ def run(cx):
     # (single-writer and range rules on the spelling of the writer bodies were replaced by the LAWS rules below: the
     # invariants are decided on the objects' observable state over state x command grids)
 
-    # ---- C19-ATOMIC --------------------------------------------------------------------------
-    r = cx.rule("C19-ATOMIC", "in every public method no explicit argument check raises after the first state mutation, and every call that can raise on a bad argument after the first mutation has that argument proven in range (intervals from dominating guards/clamps)", floor=25)
-    for cname, m in mods.items():
-        c = m.cls(cname)
-        meths = meths_by[cname]
-        state_attrs = set(WRITERS[cname])
-        mut = mutating_methods(meths, state_attrs)
-        for name, f in meths.items():
-            if name.startswith("_"):
-                continue
-            params = {p[0] for p in func_params(f)} - {"self"}
-
-            def is_mut(s, _mut=mut, _sa=state_attrs):
-                if isinstance(s, (ast.If, ast.For, ast.While, ast.Try, ast.With, ast.FunctionDef)):
-                    return False
-                for x in walk_local(s):
-                    if isinstance(x, ast.Attribute) and isinstance(x.ctx, ast.Store) and norm(x.value) == "self" and x.attr in _sa:
-                        return True
-                    if isinstance(x, ast.Call) and isinstance(x.func, ast.Attribute) and norm(x.func.value) == "self" and x.func.attr in _mut:
-                        return True
-                return False
-
-            def contract_calls(s):
-                out = []
-                if isinstance(s, (ast.If, ast.For, ast.While, ast.Try, ast.With, ast.FunctionDef)):
-                    return out
-                for x in walk_local(s):
-                    if isinstance(x, ast.Call):
-                        fn_txt = norm(x.func)
-                        if fn_txt in CONTRACTS or fn_txt in ("self.set_color",):
-                            out.append(x)
-                return out
-
-            tr = CondTrace(lambda s: isinstance(s, ast.Raise) or bool(contract_calls(s)), marks=lambda s: {"MUT"} if is_mut(s) else set())
-            tr.run_function(f, frozenset({frozenset()}))
-            for st, state in tr.hits:
-                for alt in state:
-                    if "MUT" not in alt:
-                        r.ok(None)
-                        continue
-                    if isinstance(st, ast.Raise):
-                        names = set()
-                        for fct in alt:
-                            if isinstance(fct, tuple) and fct[0] == "c":
-                                names |= set(fct[3])
-                        if names & params:
-                            # element-wise validation of a sequence parameter is outside "scalar argument"
-                            loopvars = {n.id for fl in walk_local(f) if isinstance(fl, ast.For) for n in ast.walk(fl.target) if isinstance(n, ast.Name)}
-                            encl_conds = [a for a in m.ancestors(st) if isinstance(a, ast.If)]
-                            near = {n.id for n in ast.walk(encl_conds[0].test) if isinstance(n, ast.Name)} if encl_conds else set()
-                            if near and near <= loopvars | {"self"}:
-                                r.ok(f"{cname}.{name}: per-element check of a sequence (scoped exclusion)")
-                                continue
-                        if names & params or not names:
-                            r.fail(f"{cname}.{name}/raise-after-mutation", (m, st), f"`{stmt_key(st)}` can execute after the object was already modified: a rejected call would not leave the object as it was")
-                        else:
-                            loopvars = {n.id for fl in walk_local(f) if isinstance(fl, ast.For) for n in ast.walk(fl.target) if isinstance(n, ast.Name)}
-                            r.check(names <= loopvars | {"self"}, f"{cname}.{name}/raise-after-mutation", (m, st), f"`{stmt_key(st)}` can execute after the object was already modified", sample=f"{cname}.{name}: per-element check")
-                        continue
-                    for call in contract_calls(st):
-                        fn_txt = norm(call.func)
-                        key_txt = norm(call)
-                        if (f"{cname}.{name}", key_txt) in FROZEN:
-                            r.ok(f"{cname}.{name}: {key_txt} (frozen: {FROZEN[(f'{cname}.{name}', key_txt)][:40]})")
-                            continue
-                        if fn_txt == "self.set_color":
-                            argsv = [norm(a) for a in call.args]
-                            okc = all(try_const(a) is not None and 0 <= try_const(a) <= 255 for a in call.args) if call.args and not any(isinstance(a, ast.Starred) for a in call.args) else False
-                            r.check(okc, f"{cname}.{name}/set_color({', '.join(argsv)})-after-mutation", (m, call), f"`{key_txt}` runs after the object was modified and its components are not proven to be validated 0..255 integers")
-                            continue
-                        for (lo, hi), a in zip(CONTRACTS[fn_txt], call.args):
-                            iv = interval_of_arg(a, f, alt, tr.tests, m, c)
-                            r.check(iv.within(lo, hi), f"{cname}.{name}/{fn_txt}({norm(a)})-in-range-after-mutation", (m, call), f"`{key_txt}` runs after the object was modified; its argument has range {iv} but {fn_txt} raises outside [{lo}, {hi}]: the failing call would leave the object half-updated", sample=f"{cname}.{name}: {key_txt} in {iv}")
+    # (that a call which raises leaves the object exactly as it was is decided on the objects themselves, from every state of
+    # a grid and for in-range, boundary and out-of-range arguments, by C19-MOTOR-LAW / C19-LAWS)
 
     # ---- C19-SLEEPS --------------------------------------------------------------------------
     r = cx.rule("C19-SLEEPS", "blink sleeps exactly twice per repetition with the given delay, run_for sleeps exactly once and ends with stop(), fade/ramp delay per step is duration/steps with at most one sleep per step, interpolation formulas end exactly on the target", floor=1)
@@ -327,6 +256,12 @@ def run(cx):
     # ---- C19-MOTOR-LAW / C19-LAWS ------------------------------------------------------------
     rule_motor_law(cx)
     rule_host_laws(cx, mods)
+
+
+def _sleep_contract(ms):
+    """the recorded wait keeps the contract of the real Utils.sleep (decided by C20): a negative duration is refused"""
+    if isinstance(ms, (int, float)) and ms < 0:
+        raise dl.Raised("ValueError", "duration must be non-negative")
 
 
 def rule_motor_law(cx, rid="C19-MOTOR-LAW"):
@@ -360,7 +295,7 @@ def rule_motor_law(cx, rid="C19-MOTOR-LAW"):
                     before = tuple(getattr(o, a_) for a_ in attrs)
                     trace = []
                     try:
-                        out = dl.Interp(m, opaque={"_sleep": lambda ms, _t=trace, _o=o: _t.append((ms, _o._speed))}).call(fn, [o] + list(args))
+                        out = dl.Interp(m, opaque={"_sleep": lambda ms, _t=trace, _o=o: (_sleep_contract(ms), _t.append((ms, _o._speed)))[1]}).call(fn, [o] + list(args))
                     except dl.Unsupported as e:
                         raise AnalysisError(f"host DCMotor.{meth} left the evaluable subset: {e}")
                     st = (sp, inv, mode0)
@@ -439,7 +374,7 @@ def rule_host_laws(cx, mods, rid="C19-LAWS"):
 
     def call(m, q, obj, args, kw=None, sleeps=None, probe=None):
         try:
-            return dl.Interp(m, opaque={"_sleep": (lambda ms, _s=sleeps, _p=probe: _s.append((ms, _p() if _p else None))) if sleeps is not None else (lambda ms: None)}).call(m.func(q), [obj] + list(args), dict(kw or {}))
+            return dl.Interp(m, opaque={"_sleep": (lambda ms, _s=sleeps, _p=probe: (_sleep_contract(ms), _s.append((ms, _p() if _p else None)))[1]) if sleeps is not None else (lambda ms: _sleep_contract(ms))}).call(m.func(q), [obj] + list(args), dict(kw or {}))
         except dl.Unsupported as e:
             raise AnalysisError(f"host {q} left the evaluable subset: {e}")
 
